@@ -1,8 +1,453 @@
-/- placeholder: executable model to be written (see tools/BUILDER_BRIEF.md) -/
+/-
+Model of the *simple form* of `github.com/SAP/go-dblib/dsn`:
+`ParseSimple` (dsn/parse.go), `FormatSimple` (dsn/format.go), `setValue` (dsn/util.go) and the
+key table built by `tagToField` (dsn/tagToField.go).
+
+Text is `List UInt8` (= the bytes of a Go string): every Go operation used by `ParseSimple`
+(`strings.Split`, `strings.Index`, `strings.SplitN`, `len`, indexing, slicing, map lookup,
+`strconv.ParseBool/ParseInt`) and `sort.Strings` is byte-wise, so the model makes no assumption
+about UTF-8 validity on the parse side. (The only rune-wise operation is `%q` in `FormatSimple`,
+see `quote`.)
+
+Every Go indexing / slicing expression is modelled with an explicit bounds check whose failure is
+the outcome `.panic`, so "never panics" (`Props/C17.c17_simple_total`) is a statement that could
+be false — and was false before the repair of the quotation loop.
+
+Trusted base of this file (external calls modelled by small definitions, exercised by the
+correspondence harness `go/cmd/harness/c17.go`):
+* `strings.Split(s, " ")` = `splitOn`, `strings.Index(s, "="+q)` = `index2`,
+  `strings.SplitN(s, "=", 2)` = `splitFirst`, `strings.Join([a, b], " ")` = `a ++ 32 :: b`.
+* `strconv.ParseBool` = `parseBool`, `strconv.ParseInt(s, 10, 64)` = `parseInt`
+  (sign, non-empty decimal digits, value in [-2^63, 2^63-1]); `int` is 64 bit.
+* `fmt.Sprintf("%q", s)` = `quote`: exact for bytes < 0x80 (escapes of `"`, `\`, control bytes);
+  a byte >= 0x80 is copied, i.e. it is ASSUMED to belong to the valid UTF-8 encoding of a rune with
+  `strconv.IsPrint` (Go escapes the other runes as \u.... / \x..). The harness only sends such
+  strings to `fsimple` / `rtsimple`.
+* `%v` of a bool / int field = `true`/`false` / decimal with `-`.
+* `sort.Strings` = `List.mergeSort` with the byte-wise lexicographic order `leStr` (the entries
+  are sorted by their text; the keys are pairwise different, so is the text).
+* reflection: a struct is a list of `Spec` (json name, raw multiref tag, kind) in field order
+  with embedded structs flattened in place; field values are `Val`s at the same index. Fields
+  without json tag are invisible to both directions and are left out. json names are assumed to be
+  pairwise different (Go would let the later field shadow the earlier one in `FormatSimple`);
+  the harness checks the table of its structs against the real `TagToField` (`dsn table`).
+-/
 import Dblib.Util
 
 namespace Dblib.Dsn
 
-def run (_args : List String) : String := "todo"
+abbrev Str := List UInt8
+
+abbrev SP : UInt8 := 32     -- ' '
+abbrev DQ : UInt8 := 34     -- '"'
+abbrev SQ : UInt8 := 39     -- '\''
+abbrev COMMA : UInt8 := 44  -- ','
+abbrev EQ : UInt8 := 61     -- '='
+abbrev BSL : UInt8 := 92    -- '\\'
+
+/-- ASCII text literal -/
+def b (s : String) : Str := s.toList.map (fun c => c.toNat.toUInt8)
+
+/-! ## Go stdlib pieces -/
+
+/-- `strings.Split(s, sep)` for a one-byte separator: never empty. -/
+def splitOn (sep : UInt8) : Str → List Str
+  | [] => [[]]
+  | c :: cs =>
+    if c = sep then [] :: splitOn sep cs
+    else match splitOn sep cs with
+      | [] => [[c]]
+      | p :: ps => (c :: p) :: ps
+
+/-- `strings.Index(s, string([]byte{x, y}))`, `none` = -1 -/
+def index2 (x y : UInt8) : Str → Option Nat
+  | [] => none
+  | [_] => none
+  | c :: d :: rest =>
+    if c = x ∧ d = y then some 0
+    else (index2 x y (d :: rest)).map (· + 1)
+
+/-- `strings.SplitN(s, "=", 2)`: `none` = the result has length 1 -/
+def splitFirst (sep : UInt8) : Str → Option (Str × Str)
+  | [] => none
+  | c :: cs =>
+    if c = sep then some ([], cs)
+    else match splitFirst sep cs with
+      | none => none
+      | some (k, v) => some (c :: k, v)
+
+/-- `s[lo:hi]`, `none` = slice bounds out of range -/
+def slice (s : Str) (lo hi : Nat) : Option Str :=
+  if lo ≤ hi ∧ hi ≤ s.length then some ((s.take hi).drop lo) else none
+
+/-- `strconv.ParseBool` -/
+def parseBool (s : Str) : Option Bool :=
+  if s = b "1" ∨ s = b "t" ∨ s = b "T" ∨ s = b "TRUE" ∨ s = b "true" ∨ s = b "True" then some true
+  else if s = b "0" ∨ s = b "f" ∨ s = b "F" ∨ s = b "FALSE" ∨ s = b "false" ∨ s = b "False" then some false
+  else none
+
+def isDigit (c : UInt8) : Bool := 48 ≤ c && c ≤ 57
+
+/-- value of a digit string (most significant first), accumulator style as `ParseUint` -/
+def natOfDigits (acc : Nat) : Str → Nat
+  | [] => acc
+  | c :: cs => natOfDigits (10 * acc + (c - 48).toNat) cs
+
+/-- unsigned part of `ParseInt`: non-empty, digits only -/
+def parseNat (s : Str) : Option Nat :=
+  if s ≠ [] ∧ s.all isDigit then some (natOfDigits 0 s) else none
+
+/-- `strconv.ParseInt(s, 10, 64)` -/
+def parseInt (s : Str) : Option Int :=
+  match s with
+  | [] => none
+  | c :: cs =>
+    if c = 45 then                       -- '-'
+      match parseNat cs with
+      | some n => if n ≤ 2 ^ 63 then some (-(n : Int)) else none
+      | none => none
+    else
+      match parseNat (if c = 43 then cs else c :: cs) with   -- '+'
+      | some n => if n < 2 ^ 63 then some (n : Int) else none
+      | none => none
+
+/-- decimal digits of `n`, fuel-driven (fuel `n + 1` always suffices) -/
+def digitsAux : Nat → Nat → Str → Str
+  | 0, _, acc => acc
+  | f + 1, n, acc =>
+    if n < 10 then (48 + n).toUInt8 :: acc
+    else digitsAux f (n / 10) ((48 + n % 10).toUInt8 :: acc)
+
+def natDec (n : Nat) : Str := digitsAux (n + 1) n []
+
+/-- `%v` / `strconv.Itoa` of an int -/
+def intDec (n : Int) : Str :=
+  if n < 0 then 45 :: natDec n.natAbs else natDec n.natAbs
+
+def hexNib (n : Nat) : UInt8 := if n < 10 then (48 + n).toUInt8 else (87 + n).toUInt8
+
+/-- one byte under `%q` (see the file header for bytes >= 0x80) -/
+def quoteByte (c : UInt8) : Str :=
+  if c = DQ ∨ c = BSL then [BSL, c]
+  else if 32 ≤ c ∧ c ≠ 127 then [c]
+  else if c = 7 then b "\\a" else if c = 8 then b "\\b" else if c = 12 then b "\\f"
+  else if c = 10 then b "\\n" else if c = 13 then b "\\r" else if c = 9 then b "\\t"
+  else if c = 11 then b "\\v"
+  else [BSL, 120, hexNib (c.toNat / 16), hexNib (c.toNat % 16)]
+
+/-- `fmt.Sprintf("%q", s)` -/
+def quote (s : Str) : Str := DQ :: (s.flatMap quoteByte ++ [DQ])
+
+/-- byte-wise lexicographic `≤` (Go string comparison) -/
+def leStr : Str → Str → Bool
+  | [], _ => true
+  | _ :: _, [] => false
+  | x :: xs, y :: ys => if x < y then true else if y < x then false else leStr xs ys
+
+/-! ## struct shape, key table (`tagToField`) -/
+
+inductive Kind | str | bool | int
+  deriving DecidableEq, Repr
+
+inductive Val
+  | str (s : Str)
+  | bool (v : Bool)
+  | int (n : Int)
+  deriving DecidableEq, Repr
+
+def Val.kind : Val → Kind
+  | .str _ => .str
+  | .bool _ => .bool
+  | .int _ => .int
+
+/-- the zero value of a kind -/
+def Kind.zero : Kind → Val
+  | .str => .str []
+  | .bool => .bool false
+  | .int => .int 0
+
+structure Spec where
+  json : Str        -- first element of the json tag
+  multiref : Str    -- raw multiref tag, [] = absent
+  kind : Kind
+  deriving Repr
+
+/-- keys under which `tagToField(…, Multiref)` registers a field: the json name followed by the
+comma separated multiref names, empty names skipped; nothing for a field without json name -/
+def Spec.names (s : Spec) : List Str :=
+  if s.json = [] then [] else (s.json :: splitOn COMMA s.multiref).filter (· ≠ [])
+
+abbrev Table := List (Str × Nat)
+
+/-- `tagToField(…, Multiref)`: a map, later fields overwrite earlier ones — the entries of later
+fields come first and `List.lookup` takes the first match -/
+def mkTableFrom : Nat → List Spec → Table
+  | _, [] => []
+  | i, s :: ss => mkTableFrom (i + 1) ss ++ s.names.map (·, i)
+
+def mkTable (specs : List Spec) : Table := mkTableFrom 0 specs
+
+abbrev Fields := List Val
+
+def zeroFields (specs : List Spec) : Fields := specs.map (·.kind.zero)
+
+/-- `setValue`: `none` = error. The kind is that of the field (the current value). -/
+def setValue (st : Fields) (i : Nat) (value : Str) : Option Fields :=
+  match st[i]? with
+  | none => none
+  | some (.str _) => some (st.set i (.str value))
+  | some (.bool _) => (parseBool value).map (fun v => st.set i (.bool v))
+  | some (.int _) => (parseInt value).map (fun n => st.set i (.int n))
+
+/-! ## ParseSimple -/
+
+inductive Outcome
+  | ok (st : Fields)
+  | err
+  | panic
+  deriving DecidableEq, Repr
+
+/-- loop condition `len(part) < start+3 || part[len(part)-1] != quot`;
+`none` = the index expression panics -/
+def needMore (start : Nat) (quot : UInt8) (part : Str) : Option Bool :=
+  if part.length < start + 3 then some true
+  else match part.getLast? with
+    | none => none
+    | some c => some (c != quot)
+
+inductive Join
+  | done (part : Str) (rest : List Str)
+  | unterminated
+  | panic
+  deriving DecidableEq, Repr
+
+/-- the inner `for len(part) < start+3 || part[len(part)-1] != quot { … }` -/
+def joinLoop (start : Nat) (quot : UInt8) (part : Str) (rest : List Str) : Join :=
+  match needMore start quot part with
+  | none => .panic
+  | some false => .done part rest
+  | some true =>
+    match rest with
+    | [] => .unterminated
+    | r :: rest' => joinLoop start quot (part ++ SP :: r) rest'
+termination_by structural rest
+
+/-- `for _, quot := range []byte{'\'', '"'} { start := Index(part, "="+quot); if start < 0
+{ continue }; <joinLoop>; break }` -/
+def joinQuoted (part : Str) (rest : List Str) : Join :=
+  match index2 EQ SQ part with
+  | some start => joinLoop start SQ part rest
+  | none =>
+    match index2 EQ DQ part with
+    | some start => joinLoop start DQ part rest
+    | none => .done part rest
+
+/-- `if len(value) >= 2 && value[0] == quot && value[len(value)-1] == quot
+{ value = value[1 : len(value)-1] }`; `none` = panic -/
+def stripQuote (quot : UInt8) (value : Str) : Option Str :=
+  if 2 ≤ value.length then
+    match value.head?, value.getLast? with
+    | some h, some l => if h = quot ∧ l = quot then slice value 1 (value.length - 1) else some value
+    | _, _ => none
+  else some value
+
+/-- `if value != "" { for _, quot := range quotations { … } }` -/
+def stripQuotes (value : Str) : Option Str :=
+  if value = [] then some value
+  else (stripQuote SQ value).bind (stripQuote DQ)
+
+/-- one iteration of the outer loop after the quotation has been re-joined -/
+def processPart (tbl : Table) (st : Fields) (part : Str) : Outcome :=
+  match splitFirst EQ part with
+  | none => .err                                  -- len(partS) != 2
+  | some (key, value) =>
+    match stripQuotes value with
+    | none => .panic
+    | some value =>
+      match tbl.lookup key with
+      | none => .err                              -- no field for key
+      | some i =>
+        match setValue st i value with
+        | none => .err
+        | some st' => .ok st'
+
+/-- `for len(dsnS) > 0 { part, dsnS = dsnS[0], dsnS[1:]; … }`. The fuel bounds the number of
+iterations; running out of fuel is reported as `.panic`, so the totality theorem also shows that
+the fuel `length` used by `parseSimple` is enough. -/
+def parseLoop (tbl : Table) : Nat → List Str → Fields → Outcome
+  | _, [], st => .ok st
+  | 0, _ :: _, _ => .panic
+  | fuel + 1, part :: rest, st =>
+    match joinQuoted part rest with
+    | .panic => .panic
+    | .unterminated => .err
+    | .done part rest' =>
+      match processPart tbl st part with
+      | .ok st' => parseLoop tbl fuel rest' st'
+      | o => o
+
+/-- `ParseSimple(dsn, target)` on a target whose tagged fields hold `st` -/
+def parseSimple (specs : List Spec) (st : Fields) (dsn : Str) : Outcome :=
+  let parts := splitOn SP dsn
+  parseLoop (mkTable specs) parts.length parts st
+
+/-! ## FormatSimple -/
+
+def fmtVal : Val → Str
+  | .str s => quote s
+  | .bool v => if v then b "true" else b "false"
+  | .int n => intDec n
+
+def entryText (e : Str × Val) : Str := e.1 ++ EQ :: fmtVal e.2
+
+/-- the `key=value` entries of `TagToField(input, OnlyJSON)` -/
+def entries (specs : List Spec) (vals : Fields) : List (Str × Val) :=
+  (specs.zip vals).filterMap (fun sv => if sv.1.json = [] then none else some (sv.1.json, sv.2))
+
+def joinSp : List Str → Str
+  | [] => []
+  | [x] => x
+  | x :: xs => x ++ SP :: joinSp xs
+
+/-- `FormatSimple(input)`: entries sorted by their text, joined with one space -/
+def formatSimple (specs : List Spec) (vals : Fields) : Str :=
+  joinSp (((entries specs vals).mergeSort (fun x y => leStr (entryText x) (entryText y))).map entryText)
+
+/-! ## the structs of the harness -/
+
+/-- `dsn.Info` -/
+def specsInfo : List Spec :=
+  [ ⟨b "host", b "hostname", .str⟩,
+    ⟨b "port", [], .str⟩,
+    ⟨b "username", b "user", .str⟩,
+    ⟨b "password", b "passwd,pass", .str⟩,
+    ⟨b "database", b "db", .str⟩ ]
+
+/-- `c17Info` of go/cmd/harness/c17.go: `dsn.Info` embedded, then flag / count / note -/
+def specsT : List Spec :=
+  specsInfo ++
+  [ ⟨b "flag", b "f", .bool⟩,
+    ⟨b "count", b "n,cnt", .int⟩,
+    ⟨b "note", [], .str⟩ ]
+
+/-- `c17AB`: one-letter keys for the exhaustive alphabet -/
+def specsAB : List Spec :=
+  [ ⟨b "a", [], .str⟩,
+    ⟨b "b", b "ab,ba", .str⟩ ]
+
+/-- `tds.Info` -/
+def specsTds : List Spec :=
+  specsInfo ++
+  [ ⟨b "network", [], .str⟩,
+    ⟨b "client-hostname", [], .str⟩,
+    ⟨b "tls-enable", [], .bool⟩,
+    ⟨b "tls-hostname", [], .str⟩,
+    ⟨b "tls-skip-validation", [], .bool⟩,
+    ⟨b "tls-ca-file", [], .str⟩,
+    ⟨b "packet-read-timeout", [], .int⟩,
+    ⟨b "channel-package-queue-size", [], .int⟩,
+    ⟨b "debug-log-packages", [], .bool⟩ ]
+
+/-! ## line protocol -/
+
+def strOf (s : Str) : String := String.ofList (s.map (fun c => Char.ofNat c.toNat))
+
+def showVal : Val → String
+  | .str s => toHex s
+  | .bool v => if v then "true" else "false"
+  | .int n => toString n
+
+def showOutcome (specs : List Spec) : Outcome → String
+  | .err => "err"
+  | .panic => "panic"
+  | .ok st => "ok " ++ joinSep ";" ((specs.zip st).map (fun sv => strOf sv.1.json ++ "=" ++ showVal sv.2))
+
+def readVal (k : Kind) (tok : String) : Option Val :=
+  match k with
+  | .str => (fromHex tok).map .str
+  | .bool => if tok == "true" then some (.bool true) else if tok == "false" then some (.bool false) else none
+  | .int => tok.toInt?.map .int
+
+def readVals : List Spec → List String → Option Fields
+  | [], [] => some []
+  | s :: ss, t :: ts => do
+      let v ← readVal s.kind t
+      let r ← readVals ss ts
+      pure (v :: r)
+  | _, _ => none
+
+def specsOf (sid : String) : Option (List Spec) :=
+  if sid == "t" then some specsT else if sid == "ab" then some specsAB else if sid == "tds" then some specsTds
+  else if sid == "info" then some specsInfo else none
+
+/-- `<keyhex>:<style>:<valhex>`, style d = "…", s = '…', n = bare -/
+def readPair (tok : String) : Option Str :=
+  match tok.splitOn ":" with
+  | [k, sty, v] => do
+      let k ← fromHex k
+      let v ← fromHex v
+      if sty == "d" then pure (k ++ EQ :: DQ :: (v ++ [DQ]))
+      else if sty == "s" then pure (k ++ EQ :: SQ :: (v ++ [SQ]))
+      else if sty == "n" then pure (k ++ EQ :: v)
+      else none
+  | _ => none
+
+def readPairs : List String → Option (List Str)
+  | [] => some []
+  | t :: ts => do
+      let p ← readPair t
+      let r ← readPairs ts
+      pure (p :: r)
+
+/-- all keys of a table, sorted, with the field index `lookup` gives -/
+def showTable (specs : List Spec) : String :=
+  let tbl := mkTable specs
+  let keys := ((tbl.map (·.1)).eraseDups).mergeSort leStr
+  joinSep "," (keys.map (fun k => toHex k ++ "=" ++
+    (match tbl.lookup k with
+     | some i => toString i ++ (match specs[i]? with
+        | some s => (match s.kind with | .str => "s" | .bool => "b" | .int => "i")
+        | none => "?")
+     | none => "?")))
+
+/--
+`dsn psimple <sid> <texthex>`            -> `ok k=v;…` | `err` | `panic`   (target = zero struct)
+`dsn fsimple <sid> <v1> … <vn>`          -> `text <texthex>`
+`dsn rtsimple <sid> <v1> … <vn>`         -> parse (format values) into a zero struct
+`dsn kv <sid> <khex>:<d|s|n>:<vhex> …`   -> parse of the pairs joined with one space
+`dsn table <sid>`                        -> `table <keyhex>=<index><kind>,…` sorted by key
+-/
+def run (args : List String) : String :=
+  match args with
+  | ["table", sid] =>
+    match specsOf sid with
+    | some specs => "table " ++ showTable specs
+    | none => "bad-op"
+  | ["psimple", sid, hex] =>
+    match specsOf sid, fromHex hex with
+    | some specs, some s => showOutcome specs (parseSimple specs (zeroFields specs) s)
+    | _, _ => "bad-op"
+  | "fsimple" :: sid :: vals =>
+    match specsOf sid with
+    | some specs =>
+      match readVals specs vals with
+      | some m => "text " ++ toHex (formatSimple specs m)
+      | none => "bad-op"
+    | none => "bad-op"
+  | "rtsimple" :: sid :: vals =>
+    match specsOf sid with
+    | some specs =>
+      match readVals specs vals with
+      | some m => showOutcome specs (parseSimple specs (zeroFields specs) (formatSimple specs m))
+      | none => "bad-op"
+    | none => "bad-op"
+  | "kv" :: sid :: pairs =>
+    match specsOf sid with
+    | some specs =>
+      match readPairs pairs with
+      | some ps => showOutcome specs (parseSimple specs (zeroFields specs) (joinSp ps))
+      | none => "bad-op"
+    | none => "bad-op"
+  | _ => "bad-op"
 
 end Dblib.Dsn
